@@ -325,3 +325,106 @@ pub fn neg_flat_chain<'a>(parts: &'a [Vec<u32>]) -> Box<dyn Iterator<Item = u32>
     }
     Box::new(iters.into_iter().flatten())
 }
+
+// ---------------------------------------------------------------- R1.9 flags of list-backed collections
+pub struct ListStore(pub Vec<u32>);
+impl ListStore {
+    /// removes every occurrence but always answers `true`
+    pub fn pos_remove_constant_flag(&mut self, x: u32) -> Result<bool, String> {
+        let mut i = 0;
+        while i < self.0.len() {
+            if self.0[i] == x {
+                self.0.swap_remove(i);
+            } else {
+                i += 1;
+            }
+        }
+        Ok(true)
+    }
+    /// honest flag, but only the first occurrence goes
+    pub fn pos_remove_first_only(&mut self, x: u32) -> Result<bool, String> {
+        match self.0.iter().position(|y| *y == x) {
+            None => Ok(false),
+            Some(i) => {
+                self.0.swap_remove(i);
+                Ok(true)
+            }
+        }
+    }
+    /// removes, then reports `false`
+    pub fn pos_remove_unreported(&mut self, x: u32) -> Result<bool, String> {
+        let mut removed = false;
+        let mut i = 0;
+        while i < self.0.len() {
+            if self.0[i] == x {
+                removed = true;
+                self.0.swap_remove(i);
+                removed = false;
+            } else {
+                i += 1;
+            }
+        }
+        Ok(removed)
+    }
+    pub fn neg_remove_all(&mut self, x: u32) -> Result<bool, String> {
+        let mut removed = false;
+        let mut i = 0;
+        while i < self.0.len() {
+            if self.0[i] == x {
+                self.0.swap_remove(i);
+                removed = true;
+            } else {
+                i += 1;
+            }
+        }
+        Ok(removed)
+    }
+    pub fn neg_remove_retain(&mut self, x: u32) -> Result<bool, String> {
+        let before = self.0.len();
+        self.0.retain(|y| *y != x);
+        Ok(self.0.len() != before)
+    }
+    pub fn neg_insert_push(&mut self, x: u32) -> Result<bool, String> {
+        self.0.push(x);
+        Ok(true)
+    }
+    pub fn pos_insert_silent(&mut self, x: u32) -> Result<bool, String> {
+        if self.0.contains(&x) {
+            return Ok(true);
+        }
+        self.0.push(x);
+        Ok(true)
+    }
+}
+
+// ---------------------------------------------------------------- R8.5 accessors that never return
+pub fn pos_always_panics(_x: &u32) -> Option<[u32; 3]> {
+    unimplemented!()
+}
+pub fn neg_panics_for_one_kind(x: &u32) -> Option<[u32; 3]> {
+    (*x == 3).then(|| unimplemented!("only quoted triples"))
+}
+
+// ---------------------------------------------------------------- R6.8 one reference per node and item
+pub fn pos_refs_per_occurrence<'a>(m: &mut std::collections::BTreeMap<u32, Vec<&'a [u32; 3]>>, q: &'a [u32; 3]) {
+    for c in q {
+        m.entry(*c).or_default().push(q);
+    }
+}
+pub fn neg_refs_once<'a>(m: &mut std::collections::BTreeMap<u32, Vec<&'a [u32; 3]>>, q: &'a [u32; 3]) {
+    for c in q {
+        let refs = m.entry(*c).or_default();
+        if !refs.last().is_some_and(|last| std::ptr::eq(*last, q)) {
+            refs.push(q);
+        }
+    }
+}
+pub fn neg_refs_contains<'a>(m: &mut std::collections::BTreeMap<u32, Vec<&'a [u32; 3]>>, q: &'a [u32; 3]) {
+    for c in q {
+        let refs = m.entry(*c).or_default();
+        if refs.iter().any(|x| std::ptr::eq(*x, q)) {
+            continue;
+        }
+        refs.push(q);
+    }
+}
